@@ -42,7 +42,7 @@ def run(prop, tier):
                traces_validated_against_impl=s.get("histories", 0) + s.get("sched_executions", 0),
                evaluations=s.get("histories", 0) + s.get("sched_executions", 0), distinct_nontrivial=s.get("nontrivial", 0) + s.get("sched_nontrivial_executions", 0),
                crash_points=s.get("crash_points", 0), histories=s.get("histories", 0), concurrent_executions=s.get("sched_executions", 0),
-               rule="(a) BFS over histories of new/acquire|lock/release|unlock/write/read/take_ownership/free on 2 names (115 characters long, equal except for the last character; one level shallower also 307 and 1000 characters long) x 3 handle slots spread over 2 forked processes, up to depth %d, deduplicated on the "
+               rule="(a) BFS over histories of new/acquire|lock/release|unlock/write/read/take_ownership/free on 2 names (115 characters long, equal except for the last character; one level shallower also 307 and 1000 characters long) x 3 handle slots spread over 2 forked processes, (the third slot opens an existing segment read-only; after every open of an existing segment the size of the object is compared with the size before and every other handle of the name touches its last byte under the MMU), up to depth %d, deduplicated on the "
                     "canonical reference-model state; every history runs from scratch on the real kernel objects and is compared step by step (blocking is reported by the worker's sem_wait wrapper, "
                     "not inferred from timing), final drain of the counters and name-space check; (b) all interleavings with <= %d preemptions at every IPC system call of 2-3 concurrent users; "
                     "(c) SIGKILL before and after every IPC system call of victim scripts followed by the documented recovery in a fresh process. non-trivial = blocked calls observed + crash points "
